@@ -32,7 +32,7 @@ def c07_suites(tier):
 
 
 def c20_suites(tier):
-    return [tower.TowerViewSuite(), system.RandomSessionSuite()]
+    return [tower.TowerViewSuite(), system.RandomSessionSuite(), tower.PageSuite()]
 
 
 def c17_suites(tier):
@@ -60,7 +60,7 @@ def c12_suites(tier):
 
 
 def c13_suites(tier):
-    return [timing.InertiaOneSuite(), timing.OutlierSuite(), system.RhythmSessionSuite()]
+    return [timing.InertiaOneSuite(), timing.OutlierSuite(), system.RhythmSessionSuite(), timing.HoldUpSuite()]
 
 
 def c14_suites(tier):
@@ -68,7 +68,7 @@ def c14_suites(tier):
 
 
 def c15_suites(tier):
-    return [timing.PullOffSuite(), system.RhythmSessionSuite()]
+    return [timing.PullOffSuite(), system.RhythmSessionSuite(), timing.HoldUpSuite()]
 
 
 def c10_suites(tier):
